@@ -107,6 +107,32 @@ AREAS["C14"] = {'area': 'c14',
                  "weekday and date filters are conjunctive (both must allow the window's start day), as the code applies them; an empty filter "
                  'allows every day']}
 
+def _build_race(root, env, wdir, tier):
+    """C20 runs from a race-detector build of the harness (same sources, same /repo)."""
+    import subprocess
+    p = subprocess.run(["go", "build", "-race", "-tags", "verif", "-o", "bin/harness-race", "./cmd/harness"],
+                       cwd=root + "/harness", env=env, stdout=subprocess.PIPE, stderr=subprocess.STDOUT, text=True, timeout=1500)
+    return None if p.returncode == 0 else "race-detector build of the harness failed: " + p.stdout[-600:]
+
+AREAS["C20"] = {
+    "area": "c20", "id": 20, "bin": "harness-race", "prepare": _build_race,
+    "coq": ["Base", "Store", "Properties/C20.v"],
+    "rule": "stress rounds against one instance from a -race build (GOMAXPROCS varied per round): 8 writer connections x 40 requests "
+            "(thorough 24 x 120): node point batches to the root and a fixed diamond of 4 nodes, edge points and delete/undelete on its edges, "
+            "creation of new nodes, admin.storeVerify, read-after-ack of a written node; 3 reader connections re-reading nodes; globally "
+            "distinct timestamps; then ordered shutdown (15 s limit) and reopen of the same file; a round is non-trivial when it has acknowledged "
+            "writes; distinct by (seed, number of acknowledged writes) and (seed, size of the final dump)",
+    "trusted": STORE_TRUSTED + ["Go race detector (reports collected through GORACE=log_path)"],
+    "assumptions": STORE_ASSUME + ["a request's store step is atomic (write lock + one SQLite transaction) and reads are snapshots: this is the model; "
+                                   "memory-model level races, SQLite busy handling and shutdown ordering are observed by the harness, not proved"],
+    "level_text": "proof (partial): C20_monotone_reads, C20_ack_visible, C20_serializable, C20_quiescent_hashes, C20_answered are Coq theorems about every "
+                  "interleaving of atomic request steps of the store model; each run stresses a real instance under the race detector and checks every request "
+                  "answered, reads monotone per identity, read-after-ack, final content = model of the acknowledged writes = newest per identity with consistent "
+                  "hashes, zero race reports, shutdown terminates, the file reopens with the same content",
+    "level_note": "partial: data races, deadlocks between database/sql connections, SQLite busy timeouts and shutdown ordering cannot be exhibited by a model of atomic steps; "
+                  "they are sampled by the stress harness (schedules are not enumerated)",
+}
+
 WIP = "not yet built in this round; the design (DESIGN.md section 6) claims it and the check is being added"
 NOT_CLAIMED = {pid: WIP for pid in ["C%02d" % i for i in range(1, 21)] if pid not in AREAS}
 HOOK_COMMITS = ["6f869d9", "e935e32"]
